@@ -38,6 +38,16 @@ func init() {
 				}
 				c.Clients = append(c.Clients, cl)
 			}
+			// "preparing or running one workflow does not change the behaviour of another prepared from the
+			// same text": a second preparation, before or during the runs, and some runs on it
+			c.SecondPrepare = rapid.SampledFrom([]string{"", "", "before", "during", "during"}).Draw(t, "second_prepare")
+			if c.SecondPrepare != "" {
+				for i := range c.Clients {
+					if rapid.Bool().Draw(t, "on_second") {
+						c.Clients[i].Workflow = 1
+					}
+				}
+			}
 			return c
 		},
 		Check: func(c *Case, r *harness.Result) []Violation {
